@@ -6,6 +6,8 @@
 // <query() of every universe item as 0/1>:<serialize() bytes as hex>  -- const public API only, so observing
 // never changes the state (get_bits_used is NOT const: it is an explicit op `bits`).
 #include "common.hpp"
+#include <csignal>
+#include <unistd.h>
 #include "bloom_filter.hpp"
 #include "xxhash64.h"
 
@@ -86,8 +88,17 @@ static void put_block(int m, std::unique_ptr<Bytes> b) {
   blocks[m] = std::move(b);
 }
 
+// `watch <seconds>`: watchdog for the liveness edge case; if an op does not return in time the harness prints `hang` and exits 0
+static void on_alarm(int) { const char m[] = "hang\n"; ssize_t r = write(1, m, sizeof m - 1); (void)r; _exit(0); }
+
 static std::string op_step(const std::vector<std::string>& w) {
   const std::string& op = w[0];
+  if (op == "watch") {
+    std::cout << std::unitbuf;
+    signal(SIGALRM, on_alarm);
+    alarm((unsigned)atoi(w[1].c_str()));
+    return "ok";
+  }
   if (op == "univ") {
     universe.clear();
     for (size_t i = 1; i + 1 < w.size(); i += 2) universe.push_back({w[i], w[i + 1]});
